@@ -932,12 +932,20 @@ func (s *Server) processPublish(cl *Client, pk packets.Packet) error {
 		return nil
 	} else if errors.Is(err, packets.CodeSuccessIgnore) {
 		pk.Ignore = true
-	} else if cl.Properties.ProtocolVersion == 5 && pk.FixedHeader.Qos > 0 && errors.As(err, new(packets.Code)) {
-		err = cl.WritePacket(s.buildAck(pk.PacketID, packets.Puback, 0, pk.Properties, err.(packets.Code)))
-		if err != nil {
-			return err
+	} else { // any other hook error: the message is neither forwarded nor retained, whatever the version and qos
+		if pk.FixedHeader.Qos == 0 || cl.Properties.ProtocolVersion != 5 {
+			return nil // no negative acknowledgement can be expressed; the publish is dropped like a rejected one
 		}
-		return nil
+
+		code := packets.ErrUnspecifiedError
+		_ = errors.As(err, &code)
+
+		ackType := packets.Puback
+		if pk.FixedHeader.Qos == 2 {
+			ackType = packets.Pubrec
+		}
+
+		return cl.WritePacket(s.buildAck(pk.PacketID, ackType, 0, pk.Properties, code))
 	}
 
 	if pk.FixedHeader.Retain { // [MQTT-3.3.1-5] ![MQTT-3.3.1-8]
